@@ -309,6 +309,8 @@ class Peer:
         self.total_out = 0
         self.reply_close = False         # answer the other side's close-notify with our own
         self.lazy = False                # run one script step per pump() instead of the whole script
+        self.echo = False                # write back every plaintext byte received (request/response peer)
+        self.echoed = 0
         self.replied = False
 
     def feed(self, data: bytes):
@@ -343,6 +345,12 @@ class Peer:
                 except ssl.SSLError as exc:
                     self.read_error = classify(exc)
             self.drain_plain()
+            if self.echo and self.echoed < len(self.plain_in) and self.read_error is None:
+                try:
+                    self.obj.write(bytes(self.plain_in[self.echoed:]))
+                    self.echoed = len(self.plain_in)
+                except ssl.SSLError as exc:
+                    self.read_error = classify(exc)
             if self.got_close_notify and self.reply_close and not self.replied:
                 self.replied = True
                 try:
@@ -400,6 +408,8 @@ class MemTransport(AsyncStreamTransport):
         self.recv_overlap = False
         self.data_event = asyncio.Event()
         self.peer_silent_eof = True           # nothing more to come from the peer => EOF (never block forever)
+        self.writable = asyncio.Event()       # cleared = back-pressure: send_all() parks until it is set again
+        self.writable.set()
 
     # -- AsyncBaseTransport
     def backend(self):
@@ -441,6 +451,8 @@ class MemTransport(AsyncStreamTransport):
             self.nsend += 1
             try:
                 await self._yield(self.send_yields, "send")
+                if not self.writable.is_set():
+                    await self.writable.wait()
                 if self.send_script is not None:
                     a = self.send_script.pop(0) if self.send_script else 1
                     if a == -2:
